@@ -67,7 +67,59 @@ def truthy(v, default):
 
 
 # ---------------------------------------------------------------------------------------------- child
-def run_child(sc, work):
+def run_child_tty(sc, work, tty_out, tty_err, env):
+    """like run_child, but stdout and/or stderr are pseudo-terminals (so that colour mode 'auto' switches on)"""
+    import pty, select
+
+    sp = os.path.join(work, "scenario.json")
+    fds = {}
+    kw = {}
+    for name, want in (("stdout", tty_out), ("stderr", tty_err)):
+        if want:
+            m, sl = pty.openpty()
+            fds[name] = (m, sl)
+            kw[name] = sl
+        else:
+            kw[name] = subprocess.PIPE
+    p = subprocess.Popen([RUNNER, sp], env=env, cwd=work, **kw)
+    for name, (m, sl) in fds.items():
+        os.close(sl)
+    bufs = {"stdout": b"", "stderr": b""}
+    readers = {}
+    for name in ("stdout", "stderr"):
+        readers[fds[name][0] if name in fds else getattr(p, name).fileno()] = name
+    open_fds = set(readers)
+    import time as _t
+
+    deadline = _t.time() + 120
+    while open_fds and _t.time() < deadline:
+        r, _, _ = select.select(list(open_fds), [], [], 0.5)
+        for fd in r:
+            try:
+                chunk = os.read(fd, 65536)
+            except OSError:  # EIO: the slave side of the pty was closed
+                chunk = b""
+            if not chunk:
+                open_fds.discard(fd)
+            else:
+                bufs[readers[fd]] += chunk
+    try:
+        rc = p.wait(timeout=10)
+    except subprocess.TimeoutExpired:
+        p.kill()
+        rc = p.wait()
+    for name, (m, sl) in fds.items():
+        os.close(m)
+    out = bufs["stdout"].decode("utf-8", "replace")
+    err = bufs["stderr"].decode("utf-8", "replace")
+    if tty_out:
+        out = out.replace("\r\n", "\n")
+    if tty_err:
+        err = err.replace("\r\n", "\n")
+    return rc, out, err
+
+
+def run_child(sc, work, tty_out=False, tty_err=False):
     sp = os.path.join(work, "scenario.json")
     with open(sp, "w") as f:
         json.dump(sc, f)
@@ -78,6 +130,8 @@ def run_child(sc, work):
     env["LC_ALL"] = "C.UTF-8"
     env["QT_LOGGING_RULES"] = ""
     env.pop("QT_MESSAGE_PATTERN", None)
+    if tty_out or tty_err:
+        return run_child_tty(sc, work, tty_out, tty_err, env)
     r = subprocess.run([RUNNER, sp], env=env, stdout=subprocess.PIPE, stderr=subprocess.PIPE, timeout=120, cwd=work)
     return r.returncode, r.stdout.decode("utf-8", "replace"), r.stderr.decode("utf-8", "replace")
 
@@ -197,7 +251,8 @@ def run_config(case):
                 with open(os.path.join(d, "app.log"), "w") as f:
                     f.write("".join(l + "\n" for l in old))
             sc = dict(mode="ini", dir=d, keys={k: (rules_text(v) if k == "filter_rules" else v) for k, v in keys.items()}, messages=msgs, group=case.get("group", "logger"), viaSettings=case.get("viaSettings", False))
-            rc, out, err = run_child(sc, work)
+            tty = case.get("tty", "")
+            rc, out, err = run_child(sc, work, tty in ("out", "both"), tty in ("err", "both"))
             if rc == 98:
                 return "sanitizer report in the child: " + err[-1500:]
             if rc != 0:
@@ -206,13 +261,20 @@ def run_config(case):
             rx = REGEXPS.get(keys.get("regexp_filter")) if keys.get("regexp_filter") else None
             pat = keys.get("message_pattern")
             passing = [m for m in msgs if rules_pass(rules, m["cat"] or "default", m["type"]) and (rx is None or rx(m["text"]))]
-            def rendered_ok(lines, k, label):
-                """lines must be each passing message k times in a row, in order"""
+            PREFIX = ["\x1b[90m", "\x1b[32m", "\x1b[33m", "\x1b[31m"]
+            def rendered_ok(lines, k, label, coloured=()):
+                """lines must be each passing message k times in a row, in order; coloured[j] says whether the j-th output bound
+                to this stream wraps its line in the documented colour prefix / reset (colour mode 'auto' on a terminal)"""
                 if len(lines) != k * len(passing):
                     return "%s carries %d lines, expected %d (%d messages pass the filters, %d output(s) bound to it)%s" % (label, len(lines), k * len(passing), len(passing), k, ("; first lines: %r" % lines[:3]) if lines else "")
                 for i, m in enumerate(passing):
                     for j in range(k):
                         l = lines[i * k + j]
+                        if j < len(coloured) and coloured[j]:
+                            pre, post = PREFIX[m["type"]], "\x1b[0m"
+                            if not (l.startswith(pre) and l.endswith(post)):
+                                return "%s line %d is %r: on a terminal with colour enabled the line must be wrapped in %r ... %r" % (label, i * k + j + 1, l[:160], pre, post)
+                            l = l[len(pre):len(l) - len(post)]
                         cat = m["cat"] or "default"
                         ok = (l == PATTERNS[pat](m["type"], cat, m["text"])) if pat else match_pretty(l, m["type"], cat, m["text"])
                         if not ok:
@@ -220,12 +282,16 @@ def run_config(case):
                 return ""
             k_out = 1 if (truthy(keys.get("stdout"), False) or truthy(keys.get("stdout_color"), False)) else 0
             k_err = (1 if (truthy(keys.get("stderr"), False) or truthy(keys.get("stderr_color"), False)) else 0) + (1 if truthy(keys.get("platform_std_log"), True) else 0)
-            why = rendered_ok(lines_of(out), k_out, "stdout")
+            col_out = [truthy(keys.get("stdout_color"), False) and tty in ("out", "both")]
+            col_err = ([truthy(keys.get("stderr_color"), False) and tty in ("err", "both")] if (truthy(keys.get("stderr"), False) or truthy(keys.get("stderr_color"), False)) else []) + [False]
+            why = rendered_ok(lines_of(out), k_out, "stdout", col_out)
             if why:
                 return why
-            why = rendered_ok(lines_of(err), k_err, "stderr")
+            why = rendered_ok(lines_of(err), k_err, "stderr", col_err)
             if why:
                 return why
+            STATS.cls("terminal_output", bool(tty))
+            STATS.cls("coloured_console_line_expected", (k_out and col_out[0]) or any(col_err))
             nontrivial = (k_out + k_err + (1 if has_path else 0)) >= 2 and len(passing) < len(msgs)
             STATS.cls("outputs>=2", (k_out + k_err + (1 if has_path else 0)) >= 2)
             STATS.cls("some_message_filtered_out", len(passing) < len(msgs))
@@ -404,7 +470,8 @@ def strategy():
             maybe("rotate_daily", boolsp, 0.3)
             maybe("compress_old_files", boolsp, 0.4)
         maybe("async", boolsp, 0.5)
-        return dict(mode="ini", keys=keys, messages=draw(messages), old=draw(st.integers(0, 2)), group=draw(st.sampled_from(["logger", "logger", "mylog"])), viaSettings=draw(st.booleans()))
+        return dict(mode="ini", keys=keys, messages=draw(messages), old=draw(st.integers(0, 2)), group=draw(st.sampled_from(["logger", "logger", "mylog"])), viaSettings=draw(st.booleans()),
+                    tty=draw(st.sampled_from(["", "", "", "out", "err", "both"])))
 
     @st.composite
     def oneline(draw):
